@@ -643,8 +643,7 @@ def run(ctx):
             ctx.case(('shipped', cls.__name__, shape(value)), nontrivial=npresent >= 2)
             ctx.klass('shipped-values')
     for k in ('roundtrip', 'gap-plain-noncrit', 'gap-plain-crit', 'gap-map-kv-noncrit', 'dup-critical', 'swap-critical'):
-        if not ctx.events.get(k):
-            ctx.inconclusive(f'monitor {k} observed nothing')
+        ctx.need_event(k)
     ctx.assumptions = ['critical = odd type', 'BoolField False == absent', 'fields with a default are left unassigned rather than set to None',
                        'name fields use type 7 only; type numbers are distinct within one model (unambiguous decoding)']
 
